@@ -114,8 +114,14 @@ def _run_size(case):
         rsp = _server_response(kind, f)
         real = 1 + len(rsp.encode())
         if rsp.function_code >= 0x80:
-            from vlib.engine import HarnessError
-            raise HarnessError('C14 size case got an exception response: %r %r' % (kind, f))
+            # the server path of this tree refuses a valid request (a matter of C04 / C05): fall back to the reply a conformant
+            # server gives according to the reference model, where the model knows its size
+            labels.append('server-path-gave-exception')
+            rpdu_ = specpdu.encode(kind, f)
+            if rpdu_[0] in (1, 2, 3, 4, 5, 6, 15, 16, 23):
+                real = len(transports.reply_pdu(rpdu_, 1))
+            else:
+                return Outcome([], labels + ['excluded-no-reference-size'], False)
         if pred != real:
             discs.append(Disc('prediction', '%s %s: get_response_pdu_size() = %d, the server\'s normal response PDU has %d bytes' % (
                 kind, _brief(f), pred, real), _kf(kind, f)))
